@@ -5,6 +5,8 @@ func init() {
 		Explanation: "Decides: (R1) ordering — ipsets are created before the rules referencing them, a failed creation submits nothing, stale sets are destroyed only from the deferred clean-up (after the rules were rewritten); every policy whose chain is written by writeRules is marked active in the same iteration (so the next sync cannot `-X` a live, rule-less policy's chain); syncIptables returns nil only after the iptables restore (no short-cut for an empty policy list: the stale-chain deletion is in that batch); (R4) no goroutine started by the sync receives a closure variable or the address of a local that is assigned again after the go statement; stale ipset entries are scanned for every set whose entries could be listed; SyncPodChains ensures the basic chains before its batch, declares the pod chain it fills and adds the jump only after the restore succeeded; the policy event handlers run policies -> rules -> pods on add/update and policies -> pods -> rules on delete (flattened through same-package straight-line helpers); (R2) ownership — DestroySet only behind HasPrefix(name, NamePrefix) and not-in-new-map, `-X` only behind HasPrefix(chain, policyChainPrefix) and not-active, Flush/DeleteChain only on podChainName(pod), keyword deletes only in galaxy's chains, restores never flush the table; (R3) PolicyManager.policies only under the manager mutex and never modified in place. Does not decide convergence from arbitrary prior state nor idempotence (a fixed point over kernel state). (R1, extended) a branching policy handler is decided by paths: each of the three syncs lies on every path to a return, in order. (R8) sibling agreement of the two walks over a policy's peer tables: the conditions other than nil tests that decide a registration in initIPSetMap equal those that decide a by-name reference in the rule writer (both empty today). (R9) every value appended to the policy list in syncNetworkPolices is built from policyResult(..) of this run. (R10) no success return of ensureBasicChain is reachable without each EnsureRule call (a call inside a loop over a rule table: without passing the loop). (R11) no return of filterMatchingPolicies is reachable without passing the loop over the policies. (R12) ListEntries appends whole lines of the split by newline (TrimSpace tolerated), no further split. (R13) EnsureRule and DeleteRule on the same chain get the same rule (same value, or element-wise equal slice literals). (R14) formatCidr derives its result from the *IPNet of ParseCIDR, not from the address.",
 		Assumptions: []string{"CFG paths; iptables lines identified by their constant words and the provenance of the chain operand"},
 		Run: func(c *Ctx) {
+			c.Rule("C15.R15", "a pod event touches sets of its own namespace only", 1)
+			rulePodEventSetsOfOwnNamespace(c, "C15.R15")
 			c.Rule("C15.R13", "the jump rule deleted from a chain is the one added to it", 1)
 			ruleJumpRuleAddedAndDeletedAlike(c, "C15.R13")
 			c.Rule("C15.R14", "a set member is the masked network", 1)
